@@ -23,8 +23,24 @@ def _convert_row(job):
     return row
 
 
+def _pair_obs(job):
+    """what the script does and what its conversion does on THIS interpreter: [source observation, converted observation]"""
+    src, tr = job
+    sys.setrecursionlimit(20000)
+    try:
+        text = diffexec.convert(src, tuple(tr)) if tr is not None else "None"
+        a, b = diffexec.run_pair(src, text)
+        return [a, b if tr is not None else None]
+    except BaseException as e:  # noqa
+        return [None, type(e).__name__]
+
+
 def main():
     job = json.load(sys.stdin)
+    if job.get("mode") == "pair-observe":
+        out = diffexec.pool().map(_pair_obs, [(s, t) for s, t in job["jobs"]], chunksize=4)
+        json.dump({"version": list(sys.version_info[:3]), "results": out}, sys.stdout)
+        return
     triples = [tuple(t) for t in job["triples"]]
     if job.get("mode") == "convert":
         out = diffexec.pool().map(_convert_row, [(src, triples) for src in job["sources"]], chunksize=4)
